@@ -272,17 +272,16 @@ func (vt *Model) cha(ps int) {
 // Move cursor to the absolute position
 func (vt *Model) cup(pm [][]int) {
 	vt.lastCol = false
-	switch len(pm) {
-	case 0:
-		vt.cursor.row = 0
-		vt.cursor.col = 0
-	case 1:
-		vt.cursor.row = row(pm[0][0] - 1)
-		vt.cursor.col = 0
-	case 2:
-		vt.cursor.row = row(pm[0][0] - 1)
-		vt.cursor.col = column(pm[1][0] - 1)
+	// An omitted or zero parameter means the default, 1
+	r, c := 1, 1
+	if len(pm) > 0 && pm[0][0] > 0 {
+		r = pm[0][0]
 	}
+	if len(pm) > 1 && pm[1][0] > 0 {
+		c = pm[1][0]
+	}
+	vt.cursor.row = row(r - 1)
+	vt.cursor.col = column(c - 1)
 	if vt.cursor.col > column(vt.width()-1) {
 		vt.cursor.col = column(vt.width() - 1)
 	}
